@@ -8,10 +8,12 @@ import (
 	"sort"
 	"strings"
 	"sync"
+	"sync/atomic"
 	"time"
 
 	bigbuff "github.com/joeycumines/go-bigbuff"
 
+	"verifharness/internal/hk"
 	"verifharness/internal/rng"
 )
 
@@ -219,16 +221,130 @@ func lifecycleOne(cooldownMs int, seed int) string {
 	return fmt.Sprintf("probes=%s goroutines=%s", ps, strings.Join(left, ","))
 }
 
+// lifecycleClose: Buffer.Close must wait for ALL its consumers, whatever else is broadcast on its condition variable meanwhile,
+// and inspection calls (Slice / Size / Diff) spinning on other goroutines must neither hang nor keep Close from completing.
+//   c1, c2 each hold one uncommitted read -> Close (parked, seen through the buf.close.wait hook) -> c1.Commit (a broadcast that is
+//   NOT "all consumers gone") -> Close must still be waiting while c2 is open -> c2.Rollback -> Close returns, everything is closed.
+func lifecycleClose(seed int) string {
+	r := rng.New(uint64(seed), "lifecycle-close")
+	before := len(libGoroutines())
+	var probes []string
+	bg := context.Background()
+	b := new(bigbuff.Buffer)
+	b.SetCleanerConfig(bigbuff.CleanerConfig{Cleaner: bigbuff.DefaultCleaner, Cooldown: time.Duration([]int{0, 1, 50}[r.Intn(3)]) * time.Millisecond})
+	c1, _ := b.NewConsumer()
+	c2, _ := b.NewConsumer()
+	b.Put(bg, 1, 2, 3)
+	c1.Get(bg)
+	c2.Get(bg)
+	parked := make(chan struct{}, 8)
+	rm := hk.On(func(e hk.Event) {
+		if e.Name == "buf.close.wait" && e.Obj == any(b) {
+			select {
+			case parked <- struct{}{}:
+			default:
+			}
+		}
+	})
+	defer rm()
+	var stop atomic.Bool
+	var insp sync.WaitGroup
+	for i := 0; i < 3; i++ {
+		i := i
+		insp.Add(1)
+		go func() {
+			defer insp.Done()
+			for !stop.Load() {
+				switch i {
+				case 0:
+					b.Slice()
+				case 1:
+					b.Size()
+					b.Slice()
+				default:
+					b.Size()
+					b.CleanerConfig()
+				}
+				if r.Chance(10) {
+					runtime.Gosched()
+				}
+			}
+		}()
+	}
+	closeDone := make(chan error, 1)
+	go func() { closeDone <- b.Close() }()
+	select {
+	case <-parked:
+	case err := <-closeDone:
+		probes = append(probes, "buffer-close-returned-with-uncommitted-consumers:"+strings.ReplaceAll(canonErr(err), " ", "_"))
+	case <-time.After(stepTimeout):
+		probes = append(probes, "buffer-close-never-reached-its-wait")
+	}
+	time.Sleep(time.Duration(r.Intn(400)) * time.Microsecond)
+	if c1.Commit() != nil { // lets c1 finish closing and deregister: a broadcast on the buffer's cond, with c2 still open
+		c1.Rollback()
+	}
+	select {
+	case <-closeDone:
+		// Close may only have returned if every consumer is closed
+		select {
+		case <-c2.Done():
+		default:
+			probes = append(probes, "buffer-close-returned-while-a-consumer-is-still-open")
+		}
+		closeDone <- nil
+	case <-time.After(time.Duration(2+r.Intn(6)) * time.Millisecond):
+	}
+	c2.Rollback()
+	select {
+	case <-closeDone:
+	case <-time.After(stepTimeout):
+		stop.Store(true)
+		return "probes=- goroutines=stuck-buffer-close"
+	}
+	for _, d := range []<-chan struct{}{b.Done(), c1.Done(), c2.Done()} {
+		select {
+		case <-d:
+		case <-time.After(stepTimeout):
+			probes = append(probes, "done-not-closed")
+		}
+	}
+	stop.Store(true)
+	if !waitTimeout(&insp, stepTimeout) {
+		return "probes=- goroutines=stuck-inspection-calls"
+	}
+	deadline := time.Now().Add(500 * time.Millisecond)
+	left := libGoroutines()
+	for len(left) > before && time.Now().Before(deadline) {
+		time.Sleep(2 * time.Millisecond)
+		left = libGoroutines()
+	}
+	ps := "-"
+	if len(probes) > 0 {
+		ps = strings.Join(probes, ",")
+	}
+	if len(left) <= before {
+		return fmt.Sprintf("probes=%s goroutines=0", ps)
+	}
+	return fmt.Sprintf("probes=%s goroutines=%s", ps, strings.Join(left, ","))
+}
+
 func execLifecycle(t *trace, script []string) {
 	for _, line := range script {
 		f := strings.Fields(line)
 		if len(f) == 3 && f[0] == "prog" {
 			t.Line(line, lifecycleOne(atoi(f[1]), atoi(f[2])))
 		}
+		if len(f) == 2 && f[0] == "closewait" {
+			t.Line(line, lifecycleClose(atoi(f[1])))
+		}
 	}
 }
 
 func genLifecycle(r *rng.R, tier string, i int) []string {
+	if i%3 == 2 {
+		return []string{fmt.Sprintf("closewait %d", r.Intn(1<<30))}
+	}
 	return []string{fmt.Sprintf("prog %d %d", []int{5000, 5000, 50, 0}[r.Intn(4)], r.Intn(1<<30))}
 }
 
